@@ -22,7 +22,17 @@ def main(argv):
     if tier not in ("quick", "thorough"):
         print("unknown tier", tier)
         return 2
+    # the process environment is not part of any property's quantifier, so the properties must hold in every environment real
+    # callers have: the local time zone is set per seed (zones with daylight saving; offsets of whole hours, 3.5 h, 10.5 h with a half-hour saving shift, 12.75 h) before the
+    # library is imported; nothing in qats may depend on it (absolute instants are naive date-times plus seconds)
+    import time as _time
+    tz = os.environ.get("VERIF_TZ") or ["Europe/Oslo", "America/St_Johns", "Australia/Lord_Howe", "Pacific/Chatham"][seed % 4]
+    os.environ["TZ"] = tz
+    if hasattr(_time, "tzset"):
+        _time.tzset()
     chk = core.Check(pid, tier, seed)
+    chk.extra["environment"] = dict(TZ=tz, note="strict sub-streams (warnings raised as errors, numpy floating-point errors raised) are "
+                                                 "listed in `streams` where a check has them")
     try:
         chk.proof = core.prove(pid, translate=getattr(mod, "USES_TRANSLATOR", False),
                                prefixes=getattr(mod, "ANCHOR_PREFIX", ()))
